@@ -32,8 +32,8 @@ func New() *DB {
 
 func (d *DB) Add(e *Entity) { d.ents[e.Alias] = e; d.order = append(d.order, e.Alias) }
 
-func (d *DB) Open() error  { return nil }
-func (d *DB) Close() error { return nil }
+func (d *DB) Open() error      { return nil }
+func (d *DB) Close() error     { return nil }
 func (d *DB) NumEntities() int { return len(d.ents) }
 func (d *DB) RootEntities() []string {
 	var out []string
